@@ -5,7 +5,8 @@ import collections
 import vlib
 from props import c11
 
-HDR = "From HV Require Import Base.Prelude Base.Outcome Base.Bytes Model.CodecTie Model.RobustAlloc Model.RobustTerm.\n"
+HDR = ("From HV Require Import Base.Prelude Base.Outcome Base.Bytes Model.CodecTie Model.RobustAlloc Model.RobustTerm "
+       "Model.RobustGroup Model.RobustDense Model.RobustConv.\nFrom HV Require Model.Filters.\n")
 U = (1 << 64) - 1
 UNDEF = b"\xff" * 8
 
@@ -163,6 +164,192 @@ def run_isolated(H, sub, gocases):
         return out
 
 
+
+# ------------------------------------------------------------------------------------------------ group walk / dense / loops
+def snod_bytes(entries, O, nsym=None, sig=b"SNOD", ver=1):
+    """entries: list of (name, obj, cache, bt, heap)"""
+    b = sig + bytes([ver, 0]) + le(len(entries) if nsym is None else nsym, 2)
+    for (nm, ob, ct, bt, hp) in entries:
+        b += le(nm, O) + le(ob, O) + le(ct, 4) + le(0, 4) + (le(bt, O) + le(hp, O) + b"\0" * 16)[:16]
+    return b
+
+
+def gnode_bytes(kids, O, used=None, ty=0, lv=0, sig=b"TREE"):
+    b = sig + bytes([ty, lv]) + le(len(kids) if used is None else used, 2) + b"\xff" * (2 * O)
+    for i, k in enumerate(kids):
+        b += le(i, O) + le(k, O)
+    return b + le(len(kids), O)
+
+
+def amp_image(n, m, O=8):
+    """one leaf node whose n child pointers all name one symbol table node of m entries"""
+    a = 8 + 2 * O + 2 * O * n + O
+    return gnode_bytes([a] * n, O) + snod_bytes([(0, 0, 0, 0, 0)] * m, O), a
+
+
+def group_cases(rng, n, capped):
+    out = []
+    cap = "true" if capped else "false"
+
+    def add_snod(f, addr, O):
+        out.append((dict(k="snod", file=f.hex(), addr=addr, o=O), "snod_val (snod_parse %s %s %d)" % (c11.cbytes(f.hex()), cn(addr), O), "snod", (0, 9000000), len(f)))
+
+    def add_gnode(f, addr, O, kind="gnode"):
+        out.append((dict(k="gnode", file=f.hex(), addr=addr, o=O), "gwalk_val (group_btree_entries %s %s %s %d)" % (cap, c11.cbytes(f.hex()), cn(addr), O), kind, (4, 12000000), len(f)))
+
+    for _ in range(n):
+        O = rng.choice([8, 8, 8, 4, 2, 1])
+        m = rng.choice([0, 1, 2, 3, 5, 33])
+        mask = (1 << (8 * O)) - 1
+        ents = [(rng.randrange(0, 64), rng.choice([0, 96, mask, rng.randrange(0, 1 << 16)]) & mask, rng.choice([0, 0, 1, 1, 2, 7]), rng.randrange(0, 1 << 16) & mask, rng.randrange(0, 256) & mask) for _ in range(m)]
+        pre = bytes(rng.randrange(256) for _ in range(rng.choice([0, 8, 13])))
+        body = snod_bytes(ents, O, nsym=rng.choice([None] * 5 + [m + 1, 65535, 0, 40]), sig=b"SNOD" if rng.random() < 0.92 else b"SNOE", ver=rng.choice([1] * 9 + [0, 2]))
+        f = pre + body + bytes(rng.randrange(256) for _ in range(rng.choice([0, 0, 7, 40])))
+        if rng.random() < 0.3:
+            f = f[:rng.randrange(len(pre), len(f) + 1)]
+        add_snod(f, rng.choice([len(pre)] * 6 + [0, len(f), len(f) - 1 if f else 0, 1 << 63, U]), O)
+    for _ in range(n):
+        O = rng.choice([8, 8, 8, 4, 2, 1])
+        mask = (1 << (8 * O)) - 1
+        nk = rng.choice([0, 1, 2, 3, 6])
+        node_len = 8 + 2 * O + 2 * O * nk + O
+        snods, kids, pos = b"", [], node_len
+        for i in range(nk):
+            m = rng.choice([0, 1, 2, 4])
+            sb_ = snod_bytes([(rng.randrange(0, 32), rng.randrange(0, 1 << 8), rng.choice([0, 1]), rng.randrange(0, 200), rng.randrange(0, 200)) for _ in range(m)], O)
+            kids.append(rng.choice([pos] * 6 + [0, mask, node_len, pos + 1, 1 << 20]) & mask)
+            snods += sb_
+            pos += len(sb_)
+        node = gnode_bytes(kids, O, used=rng.choice([None] * 6 + [nk + 1, 65535, 0]), ty=rng.choice([0] * 9 + [1]), lv=rng.choice([0] * 9 + [1, 255]),
+                           sig=b"TREE" if rng.random() < 0.93 else b"TREF")
+        f = node + snods
+        if rng.random() < 0.2:
+            f = f[:rng.randrange(len(f) + 1)]
+        add_gnode(f, rng.choice([0] * 7 + [1, len(f), U]), O)
+    # repeated / overlapping child pointers: the unrepaired walk multiplies (children x entries)
+    for (nn, mm) in ((1, 8), (2, 2), (3, 8), (8, 8), (40, 40)):
+        f, _ = amp_image(nn, mm)
+        add_gnode(f, 0, 8, kind="gnode-amp")
+    # local heap string lookup
+    for _ in range(n):
+        d = bytes(rng.choice([0, 0, 65, 66, 255, rng.randrange(256)]) for _ in range(rng.choice([0, 1, 2, 8, 20])))
+        off = rng.choice([0, 0, 1, len(d), len(d) - 1 if d else 0, len(d) + 1, 1 << 63, U, rng.randrange(0, len(d) + 2)])
+        out.append((dict(k="hstr", file=d.hex(), off=off), "oval vlistN (heap_get_string %s %s)" % (c11.cbytes(d.hex()), cn(off)), "hstr", (1, 0), len(d)))
+    return out
+
+
+def attr_msg(name, payload):
+    """version 3 attribute message: 1-byte unsigned integers, one dimension"""
+    nm = name + b"\0"
+    dt = bytes([0x10, 0, 0, 0]) + le(1, 4) + le(0, 2) + le(8, 2)
+    ds = bytes([2, 1, 0, 1]) + le(len(payload), 8)
+    return bytes([3, 0]) + le(len(nm), 2) + le(len(dt), 2) + le(len(ds), 2) + b"\0" + nm + dt + ds + payload
+
+
+def dense_image(rng, nattr, O=8, L=8, mutate=True):
+    """B-tree v2 header + leaf + fractal heap header + one direct block holding nattr attribute messages"""
+    hos, hls = 4, 2
+    objs = [attr_msg(b"a%d" % i, bytes(rng.randrange(256) for _ in range(rng.choice([1, 2, 5])))) for i in range(nattr)]
+    bthd_at = 16
+    leaf_at = bthd_at + 48
+    leaf = b"BTLF" + bytes([0, 8])
+    fh_at = leaf_at + 6 + 11 * nattr + 4 + 6
+    db_at = fh_at + 160
+    dbhdr = 5 + O + hos
+    off = dbhdr
+    ids = []
+    for ob in objs:
+        hid = bytes([0]) + le(off, hos) + le(len(ob), hls)
+        ids.append(hid)
+        leaf += le(rng.randrange(1 << 32), 4) + hid
+        off += len(ob)
+    leaf += b"\0" * 4
+    bthd = b"BTHD" + bytes([0, 8]) + le(512, 4) + le(11, 2) + le(0, 2) + bytes([100, 40]) + le(leaf_at, O) + le(nattr, 2) + le(nattr, 8) + b"\0" * 4
+    fh = bytearray(160)
+    fh[0:4] = b"FRHP"
+    fh[5:7] = le(7, 2)
+    fh[10:14] = le(4096, 4)
+    fh[112 + L:112 + 2 * L] = le(65536, L)
+    fh[112 + 2 * L:114 + 2 * L] = le(32, 2)
+    fh[132:132 + O] = le(db_at, O)
+    db = b"FHDB" + b"\0" + le(fh_at, O) + le(0, hos) + b"".join(objs)
+    img = bytearray(db_at + len(db) + 8)
+    img[bthd_at:bthd_at + len(bthd)] = bthd
+    img[leaf_at:leaf_at + len(leaf)] = leaf
+    img[fh_at:fh_at + 160] = fh
+    img[db_at:db_at + len(db)] = db
+    return bytes(img), bthd_at, fh_at, ids
+
+
+def dense_cases(rng, n):
+    out = []
+    for _ in range(n):
+        nattr = rng.choice([0, 1, 2, 3, 5])
+        img, bt, fh, ids = dense_image(rng, nattr)
+        f = bytearray(img)
+        r = rng.random()
+        if r < 0.45 and len(f):
+            for _ in range(rng.choice([1, 1, 2, 4])):
+                f[rng.randrange(len(f))] = rng.choice([0, 1, 255, 0x7f, 0x80, rng.randrange(256)])
+        elif r < 0.6:
+            f = f[:rng.randrange(len(f) + 1)]
+        f = bytes(f)
+        O = rng.choice([8] * 8 + [4, 2])
+        L = rng.choice([8] * 8 + [4, 2, 1])
+        which = rng.randrange(3)
+        if which == 0:
+            a = rng.choice([bt] * 8 + [0, len(f), U, 1 << 63])
+            out.append((dict(k="bt2", file=f.hex(), addr=a, o=O), "bt2_val %s %s %d" % (c11.cbytes(f.hex()), cn(a), O), "bt2", (1, 800000), len(f)))
+        elif which == 1:
+            hid = ids[rng.randrange(len(ids))] if ids else bytes(7)
+            if rng.random() < 0.4:
+                hid = bytes(rng.choice([0, 0x10, 0x20, 0xff, rng.randrange(256)]) if rng.random() < 0.3 else b for b in hid)
+            a = rng.choice([fh] * 8 + [0, len(f), U])
+            out.append((dict(k="fheap", file=f.hex(), addr=a, id=hid.hex(), o=O, l=L),
+                        "fheap_val %s %s %s %d %d" % (c11.cbytes(f.hex()), cn(a), c11.cbytes(hid.hex()), O, L), "fheap", (1, 4096), len(f)))
+        else:
+            a, b = rng.choice([fh] * 8 + [0, 1, U]), rng.choice([bt] * 8 + [0, 1, len(f)])
+            out.append((dict(k="dense", file=f.hex(), fh=a, bt=b, o=O, l=L),
+                        "dense_val (dense_read %s %s %s %d %d)" % (c11.cbytes(f.hex()), cn(a), cn(b), O, L), "dense", (1, 800000), len(f)))
+    return out
+
+
+OPT = "(fun r => match fst r with Some o => oval (fun n => vlistN [n]) o | None => VL [VN 3] end)"
+
+
+def loop_cases(rng, n):
+    out = []
+    for _ in range(n):
+        raw = bytes(rng.randrange(256) for _ in range(rng.choice([0, 1, 4, 7, 8, 15, 16, 24, 40])))
+        es, cls = rng.choice([(8, 1), (4, 1), (8, 0), (4, 0), (2, 0), (16, 1), (1, 0)])
+        ne = rng.choice([0, 1, 2, len(raw) // 8, len(raw) // 4, len(raw), len(raw) + 1, 1 << 61, (1 << 61) + 1, 1 << 63, U])
+        out.append((dict(k="convf", file=raw.hex(), es=es, cls=cls, n=ne), "%s (conv_float64 %s %d %s)" % (OPT, c11.cbytes(raw.hex()), es, cn(ne)), "convf", (8, 0), len(raw)))
+        ss = rng.choice([0, 1, 2, 3, 8, len(raw), len(raw) + 1, 16777216, 16777217, (1 << 32) - 1])
+        ne = rng.choice([0, 1, 2, 3, len(raw), len(raw) + 1, (len(raw) // ss) if ss else 1, 1 << 40, U])
+        out.append((dict(k="convs", file=raw.hex(), es=ss, n=ne), "%s (conv_strings %s %s %s)" % (OPT, c11.cbytes(raw.hex()), cn(ss), cn(ne)), "convs", (16, 0), len(raw)))
+    LZ = "(match Filters.lzf_decompress %s with Filters.Ok o => VL [VN 0; vlistN o] | Filters.Err => VL [VN 1] | Filters.Panic => VL [VN 2] | Filters.OutOfFuel => VL [VN 3] end)"
+    for _ in range(n):
+        parts = b""
+        for _ in range(rng.randrange(0, 6)):
+            t = rng.random()
+            if t < 0.4:
+                ln = rng.randrange(1, 33)
+                parts += bytes([ln - 1]) + bytes(rng.randrange(256) for _ in range(ln))
+            elif t < 0.7:
+                parts += bytes([rng.randrange(32, 224), rng.choice([0, 0, 1, 3, 255])])
+            elif t < 0.9:
+                parts += bytes([rng.randrange(224, 256), rng.choice([0, 1, 255]), rng.choice([0, 0, 2, 255])])
+            else:
+                parts += bytes(rng.randrange(256) for _ in range(rng.randrange(1, 4)))
+        if rng.random() < 0.25 and parts:
+            parts = parts[:rng.randrange(len(parts))]
+        out.append((dict(k="lzf", file=parts.hex()), LZ % c11.cbytes(parts.hex()), "lzf", (176 + 2200, 65536), len(parts)))
+    # tightness of the 88x output bound: 2 + 3k input bytes give 1 + 264k output bytes
+    parts = bytes([0, 65]) + bytes([224, 255, 0]) * 12
+    out.append((dict(k="lzf", file=parts.hex()), LZ % c11.cbytes(parts.hex()), "lzf", (176 + 2200, 65536), len(parts)))
+    return out
+
+
 # ------------------------------------------------------------------------------------------------ tie
 def tie(ctx, viol, cov):
     H, rng = ctx.harness, ctx.rng
@@ -229,8 +416,15 @@ def tie(ctx, viol, cov):
         cases.append((dict(k="btree", file=img.hex(), addr=root, nd=1),
                       "tres_val (fun p => vlistN [fst p]) (bt_collect (assoc %s) 256 %d %s [])" % (graph, lv, c11.cNl(kids)), "btree", 4, len(img)))
 
+    # which variant of ReadGroupBTreeEntries is the tree? (notes/fixes/c07-group-node-entry-budget.patch)
+    probe_img, _ = amp_image(8, 8)
+    probe = run_isolated(H, "c07", [dict(k="gnode", file=probe_img.hex(), addr=0, o=8)])[0]
+    capped = probe["c"] == "err"
+    cases += group_cases(rng, n, capped) + dense_cases(rng, 2 * n) + loop_cases(rng, n)
+
     res = run_isolated(H, "c07", [c[0] for c in cases])
     hist = collections.Counter()
+    amp = []
     exprs = []
     alloc_bad = []
     for (gc, expr, kind, k, flen), r in zip(cases, res):
@@ -241,7 +435,10 @@ def tie(ctx, viol, cov):
             viol.append(dict(what="%s: Go %s: %s" % (kind, r["c"], (r.get("e") or "")[:300]), failing_input={kk: (vv if kk != "file" or len(vv) < 4000 else vv[:4000] + "...") for kk, vv in gc.items()}))
             continue
         # per-object bookkeeping (message structs, error values) is allowed 128 bytes per 8 bytes of image on top
-        if r.get("alloc", 0) > (k + 2 + 16) * flen + 65536:
+        k, c0 = k if isinstance(k, tuple) else (k, 0)
+        if kind == "gnode-amp":
+            amp.append(dict(image_bytes=flen, go=r["c"], entries=(r.get("v") or [None])[0], allocated=r.get("alloc", 0)))
+        if r.get("alloc", 0) > (k + 2 + 16) * flen + 65536 + c0 and not (kind == "gnode-amp" and not capped):
             alloc_bad.append((kind, r["alloc"], flen, gc))
         exprs.append((kind, "val_eqb (%s) %s" % (expr, c11.cval(goval(r))), gc, r))
     for kind, a, flen, gc in alloc_bad[:2]:
@@ -271,6 +468,12 @@ def tie(ctx, viol, cov):
                 viol.append(dict(what="%s: the Go function and the Coq model (Model/Robust*.v) disagree" % kind, nofail=True,
                                  correspondence="Model.Robust* %s vs Go; theorems C07_*_%s" % (kind, kind),
                                  case={kk: (vv if kk != "file" or len(vv) < 3000 else vv[:3000] + "...") for kk, vv in gc.items()}, impl=r, coq_expr=e[:1500]))
+    cov["group_walk_variant"] = dict(
+        capped=capped, constructed_repeats=amp,
+        note=("ReadGroupBTreeEntries refuses repeated/overlapping symbol table nodes (model: group_btree_entries true; theorem C07_group_walk_bounded)" if capped else
+              "PROPOSED FINDING C07-group-node-amplification: ReadGroupBTreeEntries follows every child pointer, n pointers to one node of m entries "
+              "collect n*m entries (model: group_btree_entries false; theorems C07_group_walk_unrepaired_multiplies / _refuted); "
+              "repair: notes/fixes/c07-group-node-entry-budget.patch; the allocation gate is not applied to the constructed repeats on this tree"))
     cov["model_level"] = dict(cases=len(exprs), mismatches=nbad, alloc_gate_failures=len(alloc_bad),
                               outcomes={"%s:%s" % kk: v for kk, v in sorted(hist.items())})
     return len(exprs)
